@@ -198,34 +198,45 @@ def locate_block(src, header, toks=None, lo=0, hi=None, nth=0):
 def locate_fn(src, fn_name, container=None, nth=0, toks=None):
     """Find `fn <fn_name>` at brace depth 1 of the block introduced by `container`
     (e.g. "impl Div for Fixed", "impl<'a> Cursor<'a>", "pub trait ColorPainter", "mod x"), or at
-    depth 0 of the file when container is None. `container` may be a list for nesting.
-    Returns Item or raises KeyError."""
+    depth 0 of the file when container is None. `container` may be a list for nesting; every
+    occurrence of a container header is searched (a type may have several `impl T` blocks).
+    `nth` selects among all matches in source order. Returns Item or raises KeyError."""
     toks = toks if toks is not None else lex(src)
-    lo, hi = 0, len(toks)
     containers = [] if container is None else ([container] if isinstance(container, str) else list(container))
-    for c in containers:
-        cn = 0
-        m = re.match(r"^(.*)#(\d+)$", c)
-        if m:
-            c, cn = m.group(1), int(m.group(2))
-        r = _block_range(toks, tok_texts(c), lo, hi, cn)
-        if r is None:
-            raise KeyError("container not found: %r" % c)
-        lo, hi = r[1] + 1, r[2]
-    # scan depth-0 tokens within [lo,hi)
-    k = lo
-    found = 0
-    while k < hi:
-        t = toks[k]
-        if t.kind == "p" and t.text in OPEN:
-            k = match_close(toks, k) + 1
-            continue
-        if t.kind == "id" and t.text == "fn" and k + 1 < hi and toks[k + 1].text == fn_name:
-            if found == nth:
-                return _make_fn_item(src, toks, k, lo)
-            found += 1
-        k += 1
-    raise KeyError("fn %s not found in %r" % (fn_name, container))
+    found = []
+
+    def search(level, lo, hi):
+        if level == len(containers):
+            k = lo
+            while k < hi:
+                t = toks[k]
+                if t.kind == "p" and t.text in OPEN:
+                    k = match_close(toks, k) + 1
+                    continue
+                if t.kind == "id" and t.text == "fn" and k + 1 < hi and toks[k + 1].text == fn_name:
+                    found.append((k, lo))
+                k += 1
+            return
+        seq = tok_texts(containers[level])
+        occ = 0
+        while True:
+            r = _block_range(toks, seq, lo, hi, occ)
+            if r is None:
+                # either not found, or this occurrence is not a block (e.g. `mod x;`): try later ones
+                if find_seq(toks, seq, lo, hi, occ) < 0:
+                    break
+                occ += 1
+                continue
+            # header must be followed directly by `{`, `where` or generic-free tail: reject prefix matches
+            # such as "impl Fixed" matching "impl FixedSize"  (token-exact already) -- nothing to do
+            search(level + 1, r[1] + 1, r[2])
+            occ += 1
+
+    search(0, 0, len(toks))
+    if len(found) <= nth:
+        raise KeyError("fn %s not found in %r" % (fn_name, container))
+    k, lo = found[nth]
+    return _make_fn_item(src, toks, k, lo)
 
 
 _QUALS = {"pub", "const", "unsafe", "async", "extern", "default", "crate", "super", "in", "self"}
